@@ -791,6 +791,7 @@ type gen struct {
 	handles []string
 	nh      int
 	sets    map[string][]string // handle -> the set statements it ran so far
+	target  map[string]string   // handle -> "front#ord" it addresses
 }
 
 // remember records the set/bind statements of a script under the handle that ran it
@@ -996,6 +997,7 @@ func (g *gen) caseOps(nops int) []string {
 	g.handles = nil
 	g.nh = 0
 	g.sets = map[string][]string{}
+	g.target = map[string]string{}
 	ops := []string{"reset"}
 	open := func(f string) {
 		g.nOpen[f]++
@@ -1035,6 +1037,7 @@ func (g *gen) caseOps(nops int) []string {
 			sc := g.script(false, true)
 			if h := keptHandle(sc); h != "" {
 				g.remember(h, sc)
+				g.target[h] = connKey(f, n)
 			}
 			ops = append(ops, fmt.Sprintf("req f=%s n=%d svc=chat ntf=%d s=%s", f, n, hx.B2i(r.Intn(6) == 0), sc))
 		case x < 72: // a kept / made back session acts later
@@ -1065,12 +1068,14 @@ func (g *gen) caseOps(nops int) []string {
 				g.h.Count("mk.unknown-front")
 			}
 			g.h.Count("op.mk")
+			g.target[hn] = connKey(f, n)
 			ops = append(ops, fmt.Sprintf("mk h=%s at=%s f=%s n=%d uid=%s", hn, []string{"chat-1", "chat-2", "gate-2"}[r.Intn(3)], f, n, hk(uids[r.Intn(len(uids))])))
 		case x < 81: // A sets k=v and pushes, B sets k=w and pushes, A sets k=v again and pushes
 			f, n := g.pickConn(true)
 			g.nh += 2
 			a, b := "h"+strconv.Itoa(g.nh-1), "h"+strconv.Itoa(g.nh)
 			g.handles = append(g.handles, a, b)
+			g.target[a], g.target[b] = connKey(f, n), connKey(f, n)
 			k := hk(keyPool[r.Intn(len(keyPool))])
 			if r.Intn(3) == 0 {
 				k = hk("chatid")
@@ -1089,7 +1094,7 @@ func (g *gen) caseOps(nops int) []string {
 				fmt.Sprintf("on h=%s s=%s;push", a, sa), "snap")
 			g.remember(a, sa)
 			g.remember(b, "set/"+k+"/"+vb)
-		case x < 84:
+		case x < 87:
 			f, n := g.pickConn(true)
 			l := g.open[f]
 			for i, o := range l {
@@ -1104,13 +1109,20 @@ func (g *gen) caseOps(nops int) []string {
 				cb = " cb=" + cb
 			}
 			ops = append(ops, fmt.Sprintf("close f=%s n=%d%s", f, n, cb))
-			if r.Intn(2) == 0 {
-				// whoever still holds a session of some connection acts right after the close
-				if len(g.handles) > 0 {
-					ops = append(ops, fmt.Sprintf("on h=%s s=%s", g.handles[r.Intn(len(g.handles))], []string{"set/" + hk("k") + "/" + valField("late") + ";push;query", "query;json", "bind/" + hk("u2") + ";push"}[r.Intn(3)]), "snap")
+			// whoever still holds a session of the closed connection acts right after the close
+			var holders []string
+			for _, h := range g.handles {
+				if g.target[h] == connKey(f, n) {
+					holders = append(holders, h)
 				}
 			}
-		case x < 88:
+			if r.Intn(4) > 0 {
+				if len(holders) > 0 {
+					g.h.Count("op.close.then-dead-push-query")
+					ops = append(ops, fmt.Sprintf("on h=%s s=%s", holders[r.Intn(len(holders))], []string{"set/" + hk("k") + "/" + valField("late") + ";push;query", "query;json", "bind/" + hk("u2") + ";push"}[r.Intn(3)]), "snap")
+				}
+			}
+		case x < 91:
 			g.h.Count("op.open")
 			f := frontNames[r.Intn(2)]
 			open(f)
